@@ -98,7 +98,8 @@ Definition dec_event (k a b : N) : event :=
   | 5 => Tick (a * sec)
   | 6 => Forged a
   | 7 => Replay a
-  | _ => Restart
+  | 8 => Restart
+  | _ => Keepalive
   end.
 Definition dec_step (l : list N) : event * obs :=
   match l with
@@ -136,7 +137,8 @@ Fixpoint check_cases (ks : list case) (idx : N) : list (N * N * N) :=
    11 rekey after 165 s on receive; 12 initiation suppressed by the 5 s spacing; 13 initiation sent;
    14 ticks; 15 keys promoted with packets staged;
    16 forged message under next's index; 17 under current/previous; 18 under an index not honoured;
-   19 replayed message; 20 restart; 21 restart with an unconfirmed key in next *)
+   19 replayed message; 20 restart; 21 restart with an unconfirmed key in next;
+   22 keepalive sent under current; 23 rekey after 120 s on a keepalive-only send; 24 keepalive with no/expired key *)
 Definition same_kp (o : option kp) (k : kp) : bool :=
   match o with Some x => id x =? id k | None => false end.
 
@@ -188,6 +190,16 @@ Definition classify (s : state) (e : event) : list nat :=
       end
   | Replay _ => [19%nat]
   | Restart => match next s with Some _ => [20%nat; 21%nat] | None => [20%nat] end
+  | Keepalive =>
+      match o_sent o with
+      | [] => [24%nat] ++ (if o_init o then [] else [12%nat])
+      | _ => [22%nat] ++
+             match cur s with
+             | Some k => if initiator k && (rekey_after_time <? age s1 k)
+                         then (if o_init o then [23%nat] else [23%nat; 12%nat]) else []
+             | None => []
+             end
+      end
   end.
 
 Fixpoint bump (l : list N) (i : nat) : list N :=
@@ -204,13 +216,13 @@ Fixpoint stats_case (s : state) (c : case) (st : list N) : list N :=
   end.
 
 Definition stats (ks : list case) : list N :=
-  fold_left (fun st k => stats_case init k st) ks (repeat 0 22).
+  fold_left (fun st k => stats_case init k st) ks (repeat 0 25).
 
 (* ---- exhaustive enumeration on the model ------------------------------------- *)
 (* The property's event kinds; a slot name is resolved against the model state. *)
 Inductive aev :=
 | ACI | ACR | ARecvPrev | ARecvCur | ARecvNext | ARecvRetired | ASend | ATick (secs : N)
-| AInitiate | ARespondStale | AForgeNext | AForgeCur | ARestart.
+| AInitiate | ARespondStale | AForgeNext | AForgeCur | ARestart | AKeepalive.
 
 Definition sid_of (o : option kp) : list event :=
   match o with Some k => [Recv (id k)] | None => [] end.
@@ -238,6 +250,7 @@ Definition concretize (s : state) (a : aev) : list event :=
   | AForgeNext => match next s with Some k => [Forged (id k)] | None => [] end
   | AForgeCur => match cur s with Some k => [Forged (id k); Replay (id k)] | None => [] end
   | ARestart => [Restart]
+  | AKeepalive => [Keepalive]
   end.
 
 (* run concrete events through model and specification; None = the specification
@@ -269,6 +282,6 @@ Fixpoint explore (alphabet : list aev) (depth : nat) (s : state) (t : sst) : opt
   end.
 
 Definition alphabet7 : list aev :=
-  [ACI; ACR; ARecvPrev; ARecvCur; ARecvNext; ARecvRetired; ASend; ATick 61; ATick 121; ARestart].
+  [ACI; ACR; ARecvPrev; ARecvCur; ARecvNext; ARecvRetired; ASend; ATick 61; ATick 121; ARestart; AKeepalive].
 Definition alphabet_full : list aev :=
   alphabet7 ++ [ATick 4; ATick 45; AInitiate; ARespondStale; AForgeNext; AForgeCur].
